@@ -1381,6 +1381,44 @@ def rule_varbatch(ctx) -> RuleResult:
 
 
 # ---------------------------------------------------------------------------------------------
+# R-ARMDTYPE (C11, C12, C03): every arm of chunk_reduce's per-reduction loop yields the requested dtype.
+# The loop pairs each reduction with its dtype (`for reduction, fv, kw, dt in zip(funcs, fill_values, kwargss, dtypes)`).  The kernel arm casts
+# its result `.astype(dt)`; the arm for a block without any valid label *allocates* the all-fill result, and an allocation without `dtype=dt`
+# takes the dtype of the fill (int64 / float64): concatenated with the uint64 / float32 / complex intermediates of the other blocks the whole
+# intermediate is promoted (uint64 + int64 -> float64: max of 2**62 + 1 comes back as 2**62).
+def rule_armdtype(ctx) -> RuleResult:
+    res = RuleResult("R-ARMDTYPE", "every arm of chunk_reduce's per-reduction loop builds its result in the dtype paired with the reduction", min_instances=2)
+    f = ctx.prog.func("core.chunk_reduce")
+    loop = dt = None
+    for st in walk_own(f.node):
+        if isinstance(st, ast.For) and isinstance(st.iter, ast.Call) and norm(st.iter.func) == "zip" and isinstance(st.target, ast.Tuple) \
+                and len(st.target.elts) == len(st.iter.args):
+            for t, src in zip(st.target.elts, st.iter.args):
+                if isinstance(t, ast.Name) and norm(src) in ("dtypes", "dtype"):
+                    loop, dt = st, t.id
+    if loop is None:
+        raise AnalysisError("chunk_reduce: the loop that pairs each reduction with its dtype was not found (anchor)")
+    ALLOC = {"np.full", "np.zeros", "np.ones", "np.empty", "np.full_like", "np.zeros_like", "np.empty_like", "np.broadcast_to"}
+    for a in ast.walk(loop):
+        if not (isinstance(a, ast.Assign) and len(a.targets) == 1 and norm(a.targets[0]) == "result"):
+            continue
+        v = a.value
+        if isinstance(v, ast.Call) and norm(v.func) in ALLOC:
+            d = kwarg(v, "dtype")
+            ok = d is not None and norm(d) == dt
+            res.inst(f"chunk_reduce: allocating arm '{norm(v)[:70]}' passes dtype={dt}: {ok}", f"alloc|{norm(v.func)}")
+            if not ok:
+                res.report(f"core.chunk_reduce|arm-allocates-in-fill-dtype|{norm(v.func)}", f.where(a), f.qualname,
+                           f"'{norm(a)[:80]}' builds the result of a block without valid labels in the dtype of the fill value, not in `{dt}` like the kernel arm: "
+                           "np.concatenate of that int64 / float64 placeholder with uint64 intermediates promotes them to float64 "
+                           "(max of uint64 [2**62 + 1] with a float-label block of NaN comes back as 2**62)")
+        elif isinstance(v, ast.Call) and isinstance(v.func, ast.Attribute) and v.func.attr == "astype":
+            ok = bool(v.args) and norm(v.args[0]) == dt
+            res.inst(f"chunk_reduce: kernel arm casts its result to {dt}: {ok}", f"cast|{a.lineno}")
+    return res
+
+
+# ---------------------------------------------------------------------------------------------
 # R-SCANEMPTY (C10): a zero-length block is a legal chunking of the scanned axis.
 # chunk_reduce answers a block without valid labels with ONE placeholder label -- a float NaN that "the combine drops again".  The scan
 # pipeline has no such combine: it stores chunk_reduce's `groups` as *codes* (`group_idx=reduced["groups"]`) and later uses them as
